@@ -173,7 +173,17 @@ macro_rules! with_array {
                 let $a = [$mk(0), $mk(1), $mk(2)];
                 Ok($e)
             }
-            n => Err(format!("unsupported array length {n} (0..=3)")),
+            // the two "large" lengths (beyond the 32 / 64 element thresholds); `from_fn` calls `$mk` in
+            // index order, so child i is array element i
+            33 => {
+                let $a: [_; 33] = core::array::from_fn(|i| $mk(i));
+                Ok($e)
+            }
+            65 => {
+                let $a: [_; 65] = core::array::from_fn(|i| $mk(i));
+                Ok($e)
+            }
+            n => Err(format!("unsupported array length {n} (0..=3, 33, 65)")),
         }
     };
 }
